@@ -617,7 +617,7 @@ static void judge(vf::Ctx& c, const Args& args, const std::vector<ProbeSpec>& re
                         const std::string where = expKindSingle == 1 ? " (console next to the junit files)" : "";
                         for (int id : once) {
                             std::string nm = "TEST(" + reg[(size_t) id].group + ", " + reg[(size_t) id].name + ")";
-                            if (!contains(console, nm)) { c.violation(std::string(R.verbose ? "apply:verbose-not-applied" : "apply:very-verbose-not-applied") + "", "test name " + nm + " not printed" + where); break; }
+                            if (!contains(console, nm)) { c.violation(std::string(R.verbose ? "apply:verbose-not-applied" : "apply:very-verbose-not-applied"), "test name " + nm + " not printed" + where); break; }
                         }
                         c.count("verbose_output_checked"); if (expKindSingle == 1) c.count("verbose_output_checked_junit_composite");
                         if (R.veryVerbose) {
